@@ -367,6 +367,22 @@ impl Life {
         name
     }
 
+    /// Wait until no connection of a dropped pool still has the store's files open.  The pool of a failed
+    /// open / provision is dropped, not closed: its connection is shut down by a worker thread some time later, and
+    /// SQLite removes the `-wal` file *by name* when the last connection goes away; if a `remove` + `provision` of
+    /// the sequence got in between, that would be the new store's log.  (Linux: look at /proc/self/fd.)
+    fn settle(&self) {
+        for round in 0..4000 {
+            let busy = match std::fs::read_dir("/proc/self/fd") {
+                Ok(dir) => dir.filter_map(|e| e.ok()).filter_map(|e| std::fs::read_link(e.path()).ok())
+                    .any(|l| l.to_string_lossy().starts_with(self.path.as_str())),
+                Err(_) => { std::thread::sleep(std::time::Duration::from_millis(30)); false }
+            };
+            if !busy { return; }
+            std::thread::sleep(std::time::Duration::from_micros(if round < 100 { 200 } else { 1000 }));
+        }
+    }
+
     fn cleanup(&self) {
         for suffix in ["", "-wal", "-shm", "-journal"] { std::fs::remove_file(format!("{}{}", self.path, suffix)).ok(); }
     }
@@ -543,11 +559,7 @@ impl Life {
                         let k = err_name(e.kind());
                         self.diag.push(format!("{}: {:?}", self.step, e));
                         bump(&mut self.feat, &format!("err:{}", k));
-                        // The pool of a failed provisioning is dropped, not closed.  sqlx's `connect_with` races its own
-                        // min-connections maintenance task, so a second connection (opened with SQLITE_OPEN_CREATE) may still be
-                        // on its way; if it arrives after a following `remove` it re-creates an empty file (seen about once in
-                        // 2000 sequences under load).  Let it land before the sequence goes on.
-                        std::thread::sleep(std::time::Duration::from_millis(30));
+                        self.settle();
                         if on_existing {
                             self.judge_open("provision", Some(m), &pass, &profile, &Err(k));
                             let after = snapshot(&path);
@@ -600,6 +612,7 @@ impl Life {
                         let k = err_name(e.kind());
                         self.diag.push(format!("{}: {:?}", self.step, e));
                         bump(&mut self.feat, &format!("err:{}", k));
+                        self.settle();
                         if self.rf.exists {
                             self.judge_open("open", gm, &pass, &profile, &Err(k));
                             let after = snapshot(&path);
@@ -623,6 +636,7 @@ impl Life {
             ("close", true) => {
                 let bk = self.h.take().unwrap();
                 block_on(async move { bk.close().await.ok(); drop(bk); });
+                self.settle();
                 json!("ok")
             }
             ("rekey", true) => {
@@ -726,7 +740,12 @@ impl Life {
 
 fn exec_life(case: &Value, tag: &str) -> Value {
     let path = format!("{}/c08-{}.db", scratch_dir(), tag);
-    let uri = format!("sqlite://{}", path);
+    // `min_connections=0`: with the default (1) sqlx's `connect_with` races the pool's own maintenance task, which may open a
+    // second connection concurrently.  On a fresh file the two collide on the journal-mode switch (SQLITE_BUSY, "Error
+    // creating database pool"), and the second one is opened by a detached worker thread with SQLITE_OPEN_CREATE, possibly
+    // after the sequence has already closed and removed the store: an empty file reappears (seen 2x in 3000 sequences under
+    // load).  Neither is a key-handling outcome, so the pool is told not to pre-open connections.
+    let uri = format!("sqlite://{}?min_connections=0", path);
     let mut life = Life {
         uri, path, h: None, random_name: None,
         rf: RefStore { exists: false, method: M::None, pass: RefPass::Unknown, prev: None, content: Content::default(), last_key_op: "none" },
